@@ -25,10 +25,24 @@ try:
         res["tests_pass"] = r.returncode == 0
         demo = next((f for f in ("demo.py", "demo_test.py") if os.path.exists(os.path.join(d, f))), None)
         if demo:
-            r = subprocess.run(["/venv/bin/python", os.path.join(d, demo)], cwd=copy, env=env, capture_output=True, text=True)
+            # the demos were written inside <worktree>/seeded/<k>/ and may locate files of the tree relative to themselves
+            # (../../examples): run them from the same relative place in the tree under test
+            mdir = os.path.join(copy, "seeded", "k")
+            shutil.copytree(d, mdir)
+            r = subprocess.run(["/venv/bin/python", os.path.join(mdir, demo)], cwd=copy, env=env, capture_output=True, text=True)
             res["demo_mutant_exit"] = r.returncode
-            r2 = subprocess.run(["/venv/bin/python", os.path.join(d, demo)], cwd="/repo", env=dict(os.environ, PYTHONPATH="/repo"), capture_output=True, text=True)
+            shutil.rmtree(os.path.join(copy, "seeded"), ignore_errors=True)
+            clean = f"/var/tmp/seedclean_{os.getpid()}"
+            shutil.rmtree(clean, ignore_errors=True)
+            os.makedirs(clean)
+            for entry in os.listdir("/repo"):  # a view of the clean tree (symlinks) with the seed placed as in the worktree
+                if entry not in (".git", "seeded"):
+                    os.symlink(os.path.join("/repo", entry), os.path.join(clean, entry))
+            cdir = os.path.join(clean, "seeded", "k")
+            shutil.copytree(d, cdir)
+            r2 = subprocess.run(["/venv/bin/python", os.path.join(cdir, demo)], cwd=clean, env=dict(os.environ, PYTHONPATH="/repo"), capture_output=True, text=True)
             res["demo_clean_exit"] = r2.returncode
+            shutil.rmtree(clean, ignore_errors=True)
         res["checks"] = {}
         for p in props:
             t = time.time()
